@@ -257,3 +257,90 @@ func propDouble(t *rapid.T) {
 }
 
 func TestC16_Double(t *testing.T) { rapid.Check(t, propDouble) }
+
+// propLong: long lists.  The points are a chain P_i = (k+i)*G built with
+// cheap reference additions, so the expected sum is a single reference
+// multiplication (sum s_i*(k+i))*G and lists of several hundred terms stay
+// affordable.  Lengths sit on and around the sizes where an implementation
+// would plausibly batch or switch algorithm (powers of two +-1); the receiver
+// may alias an entry anywhere in the list, including its tail; some entries
+// are repeated pointers, identity points or zero scalars.
+func propLong(t *rapid.T) {
+	n := gen.Sampled([]int{16, 17, 31, 32, 33, 63, 64, 65, 127, 128, 129, 200, 255, 256, 257, 258, 300, 511, 512, 513}).Draw(t, "len")
+	k := gen.NonZero256(t, ref.N, "k")
+	step := ref.G()
+	if rapid.Bool().Draw(t, "step-neg") {
+		step = step.Neg()
+	}
+	cur := ref.BaseMul(k)
+	ki := new(big.Int).Set(k)
+	scalars := make([]*secp256k1.Scalar, n)
+	points := make([]*secp256k1.Point, n)
+	mult := make([]*big.Int, n) // points[i] = mult[i] * G
+	acc := new(big.Int)
+	special := 0
+	for i := 0; i < n; i++ {
+		var s *big.Int
+		switch rapid.IntRange(0, 19).Draw(t, fmt.Sprintf("kind%d", i)) {
+		case 0:
+			s = new(big.Int) // zero scalar
+			special++
+		case 1:
+			s = gen.Int256(t, ref.N, fmt.Sprintf("s%d", i))
+		default:
+			s = new(big.Int).SetUint64(rapid.Uint64().Draw(t, fmt.Sprintf("s%d", i)))
+			s.Mul(s, s).Mul(s, s).Mod(s, ref.N) // spread over 256 bits cheaply
+		}
+		scalars[i] = lib.Sc(s)
+		if i > 0 && rapid.IntRange(0, 24).Draw(t, fmt.Sprintf("dup%d", i)) == 0 {
+			j := rapid.IntRange(0, i-1).Draw(t, fmt.Sprintf("dupof%d", i))
+			points[i], mult[i] = points[j], mult[j] // same pointer again: contributes s * P_j
+			special++
+		} else {
+			if cur.Inf { // the chain passed through the identity (k + i = 0 mod n)
+				points[i] = secp256k1.NewIdentityPoint()
+			} else {
+				points[i] = lib.Pt(cur)
+			}
+			mult[i] = new(big.Int).Set(ki)
+		}
+		acc.Add(acc, new(big.Int).Mul(s, mult[i]))
+		cur = cur.Add(step)
+		if step.Y.Cmp(ref.G().Y) == 0 {
+			ki = ref.AddM(ki, big.NewInt(1), ref.N)
+		} else {
+			ki = ref.SubM(ki, big.NewInt(1), ref.N)
+		}
+	}
+	want := ref.BaseMul(ref.Mod(acc, ref.N))
+	vartime := rapid.Bool().Draw(t, "vartime")
+	rk := gen.Sampled([]string{"fresh", "zero-value", "input", "input", "input-tail"}).Draw(t, "rcv")
+	var rcv *secp256k1.Point
+	rIdx := -1
+	switch rk {
+	case "input":
+		rIdx = rapid.IntRange(0, n-1).Draw(t, "rcvidx")
+		rcv = points[rIdx]
+	case "input-tail":
+		rIdx = n - 1 - rapid.IntRange(0, 3).Draw(t, "fromend")
+		rcv = points[rIdx]
+	case "zero-value":
+		rcv = &secp256k1.Point{}
+	default:
+		rcv = secp256k1.NewGeneratorPoint()
+	}
+	stat.Case("long", []string{fmt.Sprintf("len:%d", n), "rcv:" + rk, fmt.Sprintf("vartime:%v", vartime)}, rIdx >= 0 || special > 0,
+		[]byte(fmt.Sprintf("%d|%x|%s|%d|%v|%x", n, k, rk, rIdx, vartime, acc)), func() any {
+			return map[string]any{"len": n, "k": k.Text(16), "receiver": rk, "receiver_index": rIdx, "vartime": vartime, "repeated_or_zero_terms": special}
+		})
+	if vartime {
+		rcv.MultiScalarMultVartime(scalars, points)
+	} else {
+		rcv.MultiScalarMult(scalars, points)
+	}
+	if got := rcv.UncompressedBytes(); !bytes.Equal(got, want.Uncompressed()) {
+		t.Fatalf("MultiScalarMult(vartime=%v) over %d terms P_i = (k+-i)*G, k=%x, receiver %s (index %d): got %x want %v", vartime, n, k, rk, rIdx, got, want)
+	}
+}
+
+func TestC16_Long(t *testing.T) { rapid.Check(t, propLong) }
